@@ -259,9 +259,21 @@ theorem good_elim {n : Node} (h : good n = true) :
 mutual
 theorem covN_desugar : (n : Node) → ∀ c, covN n = .ok c → c.up = 0 → c.inner = 0 →
     stmtAll good n = true → (desugar n).isSome = true
-  | .id _ | .const .. | .brk | .cont | .empty | .ret _ | .compound none => by
+  | .id _ | .const .. | .brk | .cont | .empty | .compound none => by
     intro c _ _ _ _
     simp only [desugar]; rfl
+  | .ret none => by
+    intro c _ _ _ _
+    simp only [desugar, changesVariableO]; rfl
+  | .ret (some x) => by
+    intro c h hu _ _
+    simp only [covN] at h
+    split at h
+    · simp only [pure_eq_ok, Except.ok.injEq] at h; subst h; cases hu
+    rename_i hc
+    simp only [desugar, changesVariableO, ← hasEffect_eq_changesVariable, hc,
+      Bool.false_eq_true, if_false]
+    rfl
   | .typeDecl | .declList _ | .paramList _ | .case_ .. | .default_ _ | .funcDef .. => by
     intro c _ _ _ hg
     simp only [stmtAll, Bool.and_eq_true] at hg
